@@ -290,9 +290,12 @@ int
 storage_properties_copy(struct StorageProperties* dst,
                         const struct StorageProperties* src)
 {
-    // 1. Copy everything except the strings
+    // 1. Copy everything except the strings and the dimension array, which
+    //    `dst` owns and must not share with `src`
     {
         struct String tmp_uri, tmp_meta, tmp_access_key, tmp_secret_key;
+        const struct storage_properties_dimensions_s tmp_dims =
+          dst->acquisition_dimensions;
         memcpy(&tmp_uri, &dst->uri, sizeof(struct String)); // NOLINT
         memcpy(&tmp_meta,                                   // NOLINT
                &dst->external_metadata_json,
@@ -315,6 +318,7 @@ storage_properties_copy(struct StorageProperties* dst,
         memcpy(&dst->secret_access_key,
                &tmp_secret_key,
                sizeof(struct String)); // NOLINT
+        dst->acquisition_dimensions = tmp_dims;
     }
 
     // 2. Reallocate and copy the Strings
